@@ -16,6 +16,7 @@ import (
 	"bytes"
 	"errors"
 	"fmt"
+	"io"
 	"iter"
 	"sort"
 	"testing"
@@ -60,6 +61,11 @@ type Case struct {
 	UseMap  bool `json:"use_map"`
 	Version int  `json:"version"`
 	Human   bool `json:"human"`
+	// InStream writes the tree while a stream opened with Writer.OpenStream
+	// is still open on the same pdf.Writer.  Writer.Put then only queues the
+	// node objects; they reach the file when the stream is closed, so the
+	// tree writer must not reuse storage between nodes.
+	InStream bool `json:"in_stream,omitempty"`
 
 	obs observed
 }
@@ -254,12 +260,31 @@ func run[K comparable](c *Case, a api[K], keys []K, gap func(i, j int) []K) erro
 	vals := values(c, n)
 
 	out, mf := memfile.NewPDFWriter(versions[c.Version], &pdf.WriterOptions{HumanReadable: c.Human})
+	var stm io.WriteCloser
+	if c.InStream {
+		var err error
+		stm, err = out.OpenStream(out.Alloc(), nil)
+		if err != nil {
+			return fmt.Errorf("OpenStream: %v", err)
+		}
+		if _, err := stm.Write([]byte("0 0 m 100 100 l S\n")); err != nil {
+			return fmt.Errorf("writing to the open stream: %v", err)
+		}
+	}
 	before := out.Alloc()
 	root, err := a.write(out, keys, vals, c.UseMap)
 	if err != nil {
-		return fmt.Errorf("writing a tree of %d sorted, distinct keys failed: %v", n, err)
+		return fmt.Errorf("writing a tree of %d sorted, distinct keys failed (stream open: %v): %v", n, c.InStream, err)
 	}
 	after := out.Alloc()
+	if stm != nil {
+		if _, err := stm.Write([]byte("Q\n")); err != nil {
+			return fmt.Errorf("writing to the open stream after the tree: %v", err)
+		}
+		if err := stm.Close(); err != nil {
+			return fmt.Errorf("closing the stream which was open while the tree was written: %v", err)
+		}
+	}
 	if err := out.Close(); err != nil {
 		return fmt.Errorf("Writer.Close: %v", err)
 	}
